@@ -321,15 +321,20 @@ class Norm:
         k = node.get("k")
         if k == "If":
             return self._only_mut_effects(node["then"]) and ("else" not in node or self._only_mut_effects(node["else"]))
+        fl = as_for_loop(node)
+        if fl is not None:
+            return self._only_mut_effects(fl[2], allow_lets=True)
         return False
 
-    def _only_mut_effects(self, blk):
+    def _only_mut_effects(self, blk, allow_lets=False):
         blk = strip(blk)
         if blk.get("k") != "Block":
             return self._is_mut_local_effect(blk)
         b = blk["b"]
         items = [st["e"] for st in b["stmts"] if st.get("k") in ("SSemi", "SExpr")]
-        if any(st.get("k") == "SLet" for st in b["stmts"]):
+        if not allow_lets and any(st.get("k") == "SLet" for st in b["stmts"]):
+            return False
+        if any(st.get("k") == "SLet" and "els" in st for st in b["stmts"]):
             return False
         if "expr" in b:
             items.append(b["expr"])
@@ -448,9 +453,13 @@ class Norm:
             if T.is_empty_template(e) and e.get("x") is not None:
                 return ("tpl", "quote", "", [])
             name = cshort(c)
+            if name == "__private::format_err" and c.startswith("anyhow::"):
+                return ("call", "anyhow!", [])      # message text is not part of the term
             if name in GENERIC_SENSITIVE and e.get("gen"):
                 name = name + "<" + _last_generic(e["gen"]) + ">"
             args = [self._t(a) for a in e["args"]]
+            if name == "__private::must_use" and len(args) == 1:
+                return args[0]
             if name in TRANSPARENT and len(args) == 1:
                 return args[0]
             if name == "boxed::box_assume_init_into_vec_unsafe" or name == "slice::into_vec":
